@@ -1567,6 +1567,23 @@ impl<
 		}
 		for (update_name, update_res) in MultiResultFuturePoller::new(update_futures).await {
 			let update = update_res?;
+			// Writes of different updates may complete in any order, so after a crash an update
+			// may be missing while later ones made it to the store. The updates after such a gap
+			// were never reported as persisted and cannot be applied, see
+			// `Persist::update_persisted_channel`.
+			const LEGACY_CLOSED_CHANNEL_UPDATE_ID: u64 = u64::MAX;
+			if update.update_id != LEGACY_CLOSED_CHANNEL_UPDATE_ID
+				&& update.update_id != monitor.get_latest_update_id() + 1
+			{
+				log_error!(
+					self.logger,
+					"Ignoring ChannelMonitorUpdate {} and any later ones for monitor {} as update {} is missing",
+					update_name.as_str(),
+					monitor_key,
+					monitor.get_latest_update_id() + 1,
+				);
+				break;
+			}
 			monitor
 				.update_monitor(&update, &self.broadcaster, &self.fee_estimator, &self.logger)
 				.map_err(|e| {
